@@ -3,14 +3,20 @@
 //! sub-paths, curves; the table, the cursor after every query and the selected event are printed
 //! for the Coq model.  Positions / attributes / lengths / split additivity / walker events are
 //! checked directly against an independent f64 arc-length computation.
+//! Second part (walker_checks, measure_edge_checks): the walker on curved paths, with custom attributes,
+//! with RegularPattern / RepeatedPattern, stopped by the callback or by Pattern::begin, with degenerate
+//! paths and intervals, against a dense reference built from the builder program and against the sampler
+//! at the same distances; normalized / out-of-range samples, zero-length and empty paths, sub-ranges in
+//! absolute distances.
 use crate::tess::*;
 use crate::util::*;
 use lyon_algorithms::length::approximate_length;
 use lyon_algorithms::measure::{PathMeasurements, SampleType};
-use lyon_algorithms::walk::{walk_along_path, Pattern, WalkerEvent};
+use lyon_algorithms::walk::{walk_along_path, PathWalker, Pattern, RegularPattern, RepeatedPattern, WalkerEvent};
 use lyon_path::iterator::PathIterator;
-use lyon_path::math::{point, Point};
-use lyon_path::{Path, PathEvent};
+use lyon_path::math::{point, Point, Vector};
+use lyon_path::traits::{Build, PathBuilder};
+use lyon_path::{Event, Path, PathEvent};
 use std::panic::AssertUnwindSafe;
 
 pub const HEADER: &str =
@@ -324,6 +330,13 @@ pub fn main(args: &Args) -> std::io::Result<()> {
                         break;
                     }
                 } else if n_attr > 0 && attrs.iter().zip(a2.iter()).any(|(x, y)| (x - y).abs() > 1e-3) {
+                    // at a zero-length segment (coincident consecutive end points carrying different attributes) the
+                    // distance designates both of its ends: either end's attributes answer the query
+                    let at_zero_length_row = table.windows(2).any(|w| w[0].0 == w[1].0 && kinds[w[1].1] == 1 && (w[0].0 - d.max(0.0).min(len)).abs() <= 1e-3 * (1.0 + len));
+                    if at_zero_length_row {
+                        st.inc("attribute_ties_at_zero_length_segments");
+                        continue;
+                    }
                     st.fail(jobj(&[("what", jstr("sampled attributes depend on the history of queries")), ("input", jstr(&format!("{} d={}", label, d)))]));
                     break;
                 }
@@ -456,6 +469,1237 @@ pub fn main(args: &Args) -> std::io::Result<()> {
             other => st.fail(jobj(&[("what", jstr("sample on a path starting with a single-point sub-path")), ("input", jstr(&format!("{:?}", other)))])),
         }
     }
+    walker_checks(args, &mut st);
+    measure_edge_checks(args, &mut st);
     w.finish()?;
     st.write(&args.out.join("c19_stats.json"))
+}
+
+// =====================================================================================
+// Walker on curved paths / with custom attributes / with the built-in patterns, checked against
+// (B) a dense independent reference of the path and (A) the sampler at the same distance.
+// =====================================================================================
+
+/// Failures of the checks below are counted per kind in a counter "failed: <what>" and listed at most 25
+/// times per kind, so that a defect hit by every other case (there are two in the walker) does not crowd
+/// the rarer kinds out of the list of failures.  `class_path`: the path whose curves decide a known class.
+fn fail_n(st: &mut Stats, class_path: Option<&Path>, what: &str, input: String) {
+    let key = format!("failed: {}", what);
+    st.inc(&key);
+    if st.counters[&key] > 25 {
+        st.inc("failures_counted_but_not_listed");
+        return;
+    }
+    match class_path {
+        Some(p) => fail_c(st, p, true, what, input),
+        None => st.fail(jobj(&[("what", jstr(what)), ("input", jstr(&input))])),
+    }
+}
+
+/// One edge of the dense reference polyline (f64).
+struct DEdge {
+    p0: (f64, f64),
+    p1: (f64, f64),
+    /// arc length of the reference before this edge (gaps between sub-paths have no length)
+    s0: f64,
+    len: f64,
+    seg: usize,
+    t0: f64,
+    t1: f64,
+    /// turning (radians, absolute) accumulated inside curves before this edge
+    turn0: f64,
+}
+
+enum DCurve {
+    Line,
+    Quad(lyon_geom::QuadraticBezierSegment<f64>),
+    Cubic(lyon_geom::CubicBezierSegment<f64>),
+}
+
+struct DSeg {
+    a0: Vec<f32>,
+    a1: Vec<f32>,
+    curve: DCurve,
+}
+
+impl DSeg {
+    /// unit direction of the curve at parameter t, from a central difference of `sample`
+    fn direction(&self, t: f64) -> Option<(f64, f64)> {
+        let h = 1e-7;
+        let (t0, t1) = ((t - h).max(0.0), (t + h).min(1.0));
+        let (a, b) = match &self.curve {
+            DCurve::Line => return None,
+            DCurve::Quad(q) => (q.sample(t0), q.sample(t1)),
+            DCurve::Cubic(c) => (c.sample(t0), c.sample(t1)),
+        };
+        let v = (b.x - a.x, b.y - a.y);
+        let l = (v.0 * v.0 + v.1 * v.1).sqrt();
+        if l > 0.0 {
+            Some((v.0 / l, v.1 / l))
+        } else {
+            None
+        }
+    }
+}
+
+/// Dense reference of a path, built from the builder program (not from lyon's iterators or
+/// flattening): every curve is sampled at `n` equal parameter steps with lyon_geom's f64 `sample`,
+/// arc lengths are accumulated over the whole path, each edge remembers the segment and the
+/// parameter range it covers.
+struct Dense {
+    edges: Vec<DEdge>,
+    /// first point of every sub-path with the arc length before it (a sub-path reduced to a point is a
+    /// point of the path at that distance)
+    starts: Vec<((f64, f64), f64)>,
+    /// arc lengths at which the path has a piece of length zero (single-point sub-path, repeated point,
+    /// curve reduced to a point): a sample there has no tangent
+    zero_at: Vec<f64>,
+    /// the path that decides the known-finding class of a failure (see class_path)
+    class: Path,
+    segs: Vec<DSeg>,
+    total: f64,
+    turn: f64,
+    scale: f64,
+    has_curves: bool,
+}
+
+struct Cand {
+    err: f64,
+    t: f64,
+    /// how far the parameter may be off when the position is only known within the position slack
+    t_slack: f64,
+    dir: (f64, f64),
+    seg: usize,
+}
+
+enum Verdict {
+    Ok,
+    OffPath(f64),
+    Tangent,
+    Attrs(Vec<f64>),
+}
+
+impl Dense {
+    fn new(spec: &PathSpec, n: usize) -> Dense {
+        let mut d = Dense { edges: vec![], starts: vec![], zero_at: vec![], class: class_path(spec), segs: vec![], total: 0.0, turn: 0.0, scale: 0.0, has_curves: false };
+        let f = |p: Point| (p.x as f64, p.y as f64);
+        let gp = |p: Point| lyon_geom::point(p.x as f64, p.y as f64);
+        let mut scale = 0.0f64;
+        let mut see = |p: Point| {
+            scale = scale.max(p.x.abs() as f64).max(p.y.abs() as f64);
+        };
+        for sub in &spec.subs {
+            let mut cur = sub.start;
+            let mut cur_a = sub.start_attrs.clone();
+            see(cur);
+            d.starts.push((f(cur), d.total));
+            if sub.segs.is_empty() && !sub.close {
+                d.zero_at.push(d.total);
+            }
+            for g in &sub.segs {
+                match g {
+                    Seg::Line(p, a) => {
+                        see(*p);
+                        d.chain(&[(f(cur), 0.0), (f(*p), 1.0)], &cur_a, a, DCurve::Line);
+                        cur = *p;
+                        cur_a = a.clone();
+                    }
+                    Seg::Quad(c, p, a) => {
+                        see(*c);
+                        see(*p);
+                        let q = lyon_geom::QuadraticBezierSegment { from: gp(cur), ctrl: gp(*c), to: gp(*p) };
+                        let pts: Vec<((f64, f64), f64)> = (0..=n)
+                            .map(|i| {
+                                let t = i as f64 / n as f64;
+                                let s = q.sample(t);
+                                ((s.x, s.y), t)
+                            })
+                            .collect();
+                        d.chain(&pts, &cur_a, a, DCurve::Quad(q));
+                        cur = *p;
+                        cur_a = a.clone();
+                    }
+                    Seg::Cubic(c1, c2, p, a) => {
+                        see(*c1);
+                        see(*c2);
+                        see(*p);
+                        let q = lyon_geom::CubicBezierSegment { from: gp(cur), ctrl1: gp(*c1), ctrl2: gp(*c2), to: gp(*p) };
+                        let pts: Vec<((f64, f64), f64)> = (0..=n)
+                            .map(|i| {
+                                let t = i as f64 / n as f64;
+                                let s = q.sample(t);
+                                ((s.x, s.y), t)
+                            })
+                            .collect();
+                        d.chain(&pts, &cur_a, a, DCurve::Cubic(q));
+                        cur = *p;
+                        cur_a = a.clone();
+                    }
+                }
+            }
+            if sub.close {
+                d.chain(&[(f(cur), 0.0), (f(sub.start), 1.0)], &cur_a, &sub.start_attrs, DCurve::Line);
+            }
+        }
+        d.scale = scale;
+        d
+    }
+
+    fn chain(&mut self, pts: &[((f64, f64), f64)], a0: &[f32], a1: &[f32], kind: DCurve) {
+        let seg = self.segs.len();
+        let curve = !matches!(kind, DCurve::Line);
+        self.segs.push(DSeg { a0: a0.to_vec(), a1: a1.to_vec(), curve: kind });
+        let mut prev_dir: Option<(f64, f64)> = None;
+        for w in pts.windows(2) {
+            let (p0, t0) = w[0];
+            let (p1, t1) = w[1];
+            let v = (p1.0 - p0.0, p1.1 - p0.1);
+            let len = (v.0 * v.0 + v.1 * v.1).sqrt();
+            if len == 0.0 {
+                self.zero_at.push(self.total);
+                continue;
+            }
+            let dir = (v.0 / len, v.1 / len);
+            if let (Some(pd), true) = (prev_dir, curve) {
+                self.turn += (pd.0 * dir.1 - pd.1 * dir.0).atan2(pd.0 * dir.0 + pd.1 * dir.1).abs();
+            }
+            prev_dir = Some(dir);
+            self.edges.push(DEdge { p0, p1, s0: self.total, len, seg, t0, t1, turn0: self.turn });
+            self.total += len;
+            if curve {
+                self.has_curves = true;
+            }
+        }
+    }
+
+    /// turning accumulated inside curves up to arc length s (rounded up to the next edge)
+    fn turning_upto(&self, s: f64) -> f64 {
+        let i = self.edges.partition_point(|e| e.s0 <= s);
+        if i < self.edges.len() {
+            self.edges[i].turn0
+        } else {
+            self.turn
+        }
+    }
+
+    /// closest points to p among the reference points whose arc length lies in [lo, hi]
+    fn locate(&self, p: (f64, f64), lo: f64, hi: f64, dp: f64) -> Vec<Cand> {
+        let mut out = Vec::new();
+        let first = self.edges.partition_point(|e| e.s0 + e.len < lo);
+        for e in &self.edges[first..] {
+            if e.s0 > hi {
+                break;
+            }
+            let u_lo = ((lo - e.s0) / e.len).max(0.0).min(1.0);
+            let u_hi = ((hi - e.s0) / e.len).max(0.0).min(1.0);
+            let v = (e.p1.0 - e.p0.0, e.p1.1 - e.p0.1);
+            let u = (((p.0 - e.p0.0) * v.0 + (p.1 - e.p0.1) * v.1) / (e.len * e.len)).max(u_lo).min(u_hi);
+            let q = (e.p0.0 + v.0 * u, e.p0.1 + v.1 * u);
+            let err = ((q.0 - p.0).powi(2) + (q.1 - p.1).powi(2)).sqrt();
+            out.push(Cand {
+                err,
+                t: e.t0 + (e.t1 - e.t0) * u,
+                t_slack: (e.t1 - e.t0) * (2.0 * dp + err) / e.len,
+                dir: (v.0 / e.len, v.1 / e.len),
+                seg: e.seg,
+            });
+        }
+        for (q, s) in &self.starts {
+            if *s >= lo && *s <= hi {
+                // no direction: never accepted as the location of a tangent
+                out.push(Cand { err: ((q.0 - p.0).powi(2) + (q.1 - p.1).powi(2)).sqrt(), t: 0.0, t_slack: 0.0, dir: (0.0, 0.0), seg: usize::MAX });
+            }
+        }
+        out
+    }
+
+    /// slack on positions: f32 coordinates of magnitude `scale`
+    fn dp(&self) -> f64 {
+        2e-5 * (1.0 + self.scale)
+    }
+
+    /// The window of reference arc lengths that correspond to distance d measured along a flattening
+    /// with tolerance tol.  Chords are shorter than the arcs they replace, by about deviation x turning / 3
+    /// (deviation up to 1.5 tol, finding K6 of C09; doubled here): the reference arc length is ahead of d by
+    /// at most tol x turning.  Inside one flattened piece lyon interpolates the curve parameter linearly in
+    /// distance, which displaces the point ALONG the curve (known finding K7: not bounded by the tolerance on
+    /// hairpins / straight curves, and present to a lesser degree on every curve whose speed varies inside a
+    /// piece - about tol x tangential / normal acceleration, e.g. 0.46 on the cubic (0,8) (2,4) (2,7) (0,2) at
+    /// tolerance 0.1).  The allowance of the sampler check above (0.1 + 2% of the length, at tolerance 0.01) is
+    /// applied, in proportion to the tolerance; beyond it the failure is reported (class K7 when curve_class
+    /// says so).  Paths without curves get no allowance at all.
+    fn window(&self, d: f64, tol: f64) -> (f64, f64) {
+        let dd = 1e-3 * (1.0 + d);
+        if !self.has_curves {
+            return (d - dd, d + dd);
+        }
+        let c = (0.1 + 0.02 * self.total) * (tol / 0.01).max(1.0);
+        let mut hi = d + dd + c;
+        for _ in 0..3 {
+            hi = d + dd + c + tol * self.turning_upto(hi);
+        }
+        (d - dd - c, hi)
+    }
+
+    fn check_event(&self, ev: &Ev, tol: f32) -> Verdict {
+        let tol = tol as f64;
+        let (lo, hi) = self.window(ev.dist as f64, tol);
+        let dp = self.dp();
+        let eps = if self.has_curves { 1.5 * tol + dp } else { dp };
+        let p = (ev.pos.x as f64, ev.pos.y as f64);
+        if !(p.0.is_finite() && p.1.is_finite()) {
+            return Verdict::OffPath(f64::NAN);
+        }
+        let cands = self.locate(p, lo, hi, dp);
+        let best = cands.iter().map(|c| c.err).fold(f64::INFINITY, f64::min);
+        if !(best <= eps) {
+            return Verdict::OffPath(best);
+        }
+        let tight: Vec<&Cand> = cands.iter().filter(|c| c.err <= best + dp).collect();
+        let (tx, ty) = (ev.tan.x as f64, ev.tan.y as f64);
+        let unit = tx.is_finite() && ty.is_finite() && ((tx * tx + ty * ty).sqrt() - 1.0).abs() <= 1e-3;
+        // the direction of the reference edge the position lies on; near a cusp the direction turns faster than
+        // the reference edges resolve: there, any direction the curve takes within the position slack
+        let along = |c: &Cand| -> bool {
+            if c.dir.0 * tx + c.dir.1 * ty >= 0.995 {
+                return true;
+            }
+            if c.seg == usize::MAX {
+                return false;
+            }
+            let steps = 32;
+            (0..=steps).any(|k| {
+                let t = (c.t + c.t_slack * (2.0 * k as f64 / steps as f64 - 1.0)).max(0.0).min(1.0);
+                match self.segs[c.seg].direction(t) {
+                    Some(d) => d.0 * tx + d.1 * ty >= 0.995,
+                    None => false,
+                }
+            })
+        };
+        let tight: Vec<&Cand> = tight.into_iter().filter(|c| unit && along(c)).collect();
+        if tight.is_empty() {
+            return Verdict::Tangent;
+        }
+        if ev.attrs.is_empty() {
+            return Verdict::Ok;
+        }
+        let mut expected = Vec::new();
+        for c in &tight {
+            let s = &self.segs[c.seg];
+            let want: Vec<f64> = (0..ev.attrs.len()).map(|i| s.a0[i] as f64 * (1.0 - c.t) + s.a1[i] as f64 * c.t).collect();
+            let ok = (0..ev.attrs.len()).all(|i| {
+                let (a0, a1) = (s.a0[i] as f64, s.a1[i] as f64);
+                (ev.attrs[i] as f64 - want[i]).abs() <= 1e-3 * (1.0 + a0.abs() + a1.abs()) + (a1 - a0).abs() * c.t_slack
+            });
+            if ok {
+                return Verdict::Ok;
+            }
+            if expected.is_empty() {
+                expected = want;
+            }
+        }
+        Verdict::Attrs(expected)
+    }
+}
+
+#[derive(Clone, Debug)]
+struct Ev {
+    pos: Point,
+    tan: Vector,
+    dist: f32,
+    attrs: Vec<f32>,
+}
+
+impl Ev {
+    fn same(&self, o: &Ev) -> bool {
+        let b = |x: f32| x.to_bits();
+        b(self.pos.x) == b(o.pos.x)
+            && b(self.pos.y) == b(o.pos.y)
+            && b(self.tan.x) == b(o.tan.x)
+            && b(self.tan.y) == b(o.tan.y)
+            && b(self.dist) == b(o.dist)
+            && self.attrs.len() == o.attrs.len()
+            && self.attrs.iter().zip(o.attrs.iter()).all(|(x, y)| b(*x) == b(*y))
+    }
+}
+
+#[derive(Clone, Debug)]
+enum PatKind {
+    Regular(f32),
+    /// intervals, index of the first one handed out
+    Repeated(Vec<f32>, usize),
+}
+
+impl PatKind {
+    fn interval(&self, k: usize) -> f32 {
+        match self {
+            PatKind::Regular(i) => *i,
+            PatKind::Repeated(v, i0) => v[(i0 + k) % v.len()],
+        }
+    }
+}
+
+struct WalkOut {
+    evs: Vec<Ev>,
+    hit_limit: bool,
+    /// callbacks received after the callback had already returned false
+    after_stop: usize,
+    /// PathWalker::num_attributes (inherent, trait)
+    num_attrs: Option<(usize, usize)>,
+}
+
+/// route 0: walk_along_path(path.iter()) (no attributes); route 1: PathWalker::with_attributes driven
+/// through the PathBuilder trait (PathSpec::replay); route 2: PathWalker::with_attributes driven by
+/// path.iter_with_attributes() through its inherent methods.
+fn drive(spec: &PathSpec, path: &Path, route: u8, start: f32, tol: f32, pattern: &mut dyn Pattern) -> Option<(usize, usize)> {
+    match route {
+        0 => {
+            walk_along_path(path.iter(), start, tol, pattern);
+            None
+        }
+        1 => {
+            let mut w = PathWalker::with_attributes(spec.n_attr, start, tol, pattern);
+            let na = (w.num_attributes(), PathBuilder::num_attributes(&w));
+            spec.replay(&mut w);
+            w.build();
+            Some(na)
+        }
+        _ => {
+            let mut w = PathWalker::with_attributes(spec.n_attr, start, tol, pattern);
+            let na = (w.num_attributes(), PathBuilder::num_attributes(&w));
+            for e in path.iter_with_attributes() {
+                match e {
+                    Event::Begin { at: (p, a) } => {
+                        w.begin(p, a);
+                    }
+                    Event::Line { to: (p, a), .. } => {
+                        w.line_to(p, a);
+                    }
+                    Event::Quadratic { ctrl, to: (p, a), .. } => {
+                        w.quadratic_bezier_to(ctrl, p, a);
+                    }
+                    Event::Cubic { ctrl1, ctrl2, to: (p, a), .. } => {
+                        w.cubic_bezier_to(ctrl1, ctrl2, p, a);
+                    }
+                    Event::End { close, .. } => {
+                        w.end(close);
+                    }
+                }
+            }
+            Some(na)
+        }
+    }
+}
+
+/// Walk with one of lyon's two built-in patterns.  The callback stops the walk (returns false) at
+/// event number `stop_at`, and in any case after `limit` events so that the harness terminates
+/// whatever the library does.
+fn run_walk(spec: &PathSpec, path: &Path, route: u8, start: f32, tol: f32, pat: &PatKind, stop_at: Option<usize>, limit: usize) -> Option<WalkOut> {
+    catch(AssertUnwindSafe(|| {
+        let mut evs: Vec<Ev> = Vec::new();
+        let mut hit_limit = false;
+        let mut stopped = false;
+        let mut after_stop = 0usize;
+        let num_attrs;
+        {
+            let mut cb = |e: WalkerEvent| -> bool {
+                if stopped {
+                    after_stop += 1;
+                    return false;
+                }
+                evs.push(Ev { pos: e.position, tan: e.tangent, dist: e.distance, attrs: e.attributes.to_vec() });
+                if evs.len() >= limit {
+                    hit_limit = true;
+                    stopped = true;
+                    return false;
+                }
+                if stop_at == Some(evs.len() - 1) {
+                    stopped = true;
+                    return false;
+                }
+                true
+            };
+            num_attrs = match pat {
+                PatKind::Regular(i) => {
+                    let mut p = RegularPattern { callback: &mut cb, interval: *i };
+                    drive(spec, path, route, start, tol, &mut p)
+                }
+                PatKind::Repeated(v, i0) => {
+                    let mut p = RepeatedPattern { callback: &mut cb, intervals: &v[..], index: *i0 };
+                    drive(spec, path, route, start, tol, &mut p)
+                }
+            };
+        }
+        WalkOut { evs, hit_limit, after_stop, num_attrs }
+    }))
+}
+
+fn spec_text(spec: &PathSpec) -> String {
+    let mut s = String::new();
+    let at = |a: &Vec<f32>| if a.is_empty() { String::new() } else { format!(" {:?}", a) };
+    for sub in &spec.subs {
+        s.push_str(&format!("M {} {}{} ", sub.start.x, sub.start.y, at(&sub.start_attrs)));
+        for g in &sub.segs {
+            match g {
+                Seg::Line(p, a) => s.push_str(&format!("L {} {}{} ", p.x, p.y, at(a))),
+                Seg::Quad(c, p, a) => s.push_str(&format!("Q {} {} {} {}{} ", c.x, c.y, p.x, p.y, at(a))),
+                Seg::Cubic(c1, c2, p, a) => s.push_str(&format!("C {} {} {} {} {} {}{} ", c1.x, c1.y, c2.x, c2.y, p.x, p.y, at(a))),
+            }
+        }
+        if sub.close {
+            s.push_str("Z ");
+        }
+    }
+    s
+}
+
+/// The path whose curves decide the known-finding class of a failure (curve_class): the curves reduced
+/// to a single point, which the degenerate generator inserts on purpose, have no parameter speed at all
+/// and must not make every failure on such a path a "K7".
+fn class_path(spec: &PathSpec) -> Path {
+    let mut sp = spec.clone();
+    for sub in sp.subs.iter_mut() {
+        let mut cur = sub.start;
+        let mut segs = Vec::new();
+        for g in &sub.segs {
+            let (to, point_curve) = match g {
+                Seg::Line(p, _) => (*p, false),
+                Seg::Quad(c, p, _) => (*p, *c == cur && *p == cur),
+                Seg::Cubic(c1, c2, p, _) => (*p, *c1 == cur && *c2 == cur && *p == cur),
+            };
+            if !point_curve {
+                segs.push(g.clone());
+            }
+            cur = to;
+        }
+        sub.segs = segs;
+    }
+    sp.build()
+}
+
+/// length of the builder program flattened segment by segment with lyon_geom
+fn geom_flattened_length(spec: &PathSpec, tol: f32) -> f64 {
+    let mut total = 0.0f64;
+    for sub in &spec.subs {
+        let mut cur = sub.start;
+        for g in &sub.segs {
+            match g {
+                Seg::Line(p, _) => {
+                    total += (*p - cur).length() as f64;
+                    cur = *p;
+                }
+                Seg::Quad(c, p, _) => {
+                    lyon_geom::QuadraticBezierSegment { from: cur, ctrl: *c, to: *p }.for_each_flattened(tol, &mut |l| total += l.length() as f64);
+                    cur = *p;
+                }
+                Seg::Cubic(c1, c2, p, _) => {
+                    lyon_geom::CubicBezierSegment { from: cur, ctrl1: *c1, ctrl2: *c2, to: *p }.for_each_flattened(tol, &mut |l| total += l.length() as f64);
+                    cur = *p;
+                }
+            }
+        }
+        if sub.close {
+            total += (sub.start - cur).length() as f64;
+        }
+    }
+    total
+}
+
+/// polylines with Pythagorean steps (integer edge lengths), small integer attributes
+fn pyth_spec(rng: &mut Rng, n_attr: usize) -> PathSpec {
+    let steps: [(f32, f32); 8] = [(3.0, 4.0), (4.0, 3.0), (-3.0, 4.0), (5.0, 0.0), (0.0, -5.0), (6.0, 8.0), (-4.0, -3.0), (0.0, 2.0)];
+    let nsub = 1 + rng.below(3) as usize;
+    let mut subs = Vec::new();
+    for _ in 0..nsub {
+        let mut p = point(rng.range(-5, 5) as f32, rng.range(-5, 5) as f32);
+        let start = p;
+        let start_attrs: Vec<f32> = (0..n_attr).map(|_| rng.range(-8, 8) as f32).collect();
+        let k = if rng.chance(1, 5) { 0 } else { 1 + rng.below(4) as usize };
+        let mut segs = Vec::new();
+        for _ in 0..k {
+            let s = *rng.pick(&steps);
+            p = point(p.x + s.0, p.y + s.1);
+            segs.push(Seg::Line(p, (0..n_attr).map(|_| rng.range(-8, 8) as f32).collect()));
+        }
+        subs.push(Sub { start, start_attrs, segs, close: rng.chance(1, 3) });
+    }
+    PathSpec { n_attr, subs }
+}
+
+/// paths with repeated points, zero-length lines and curves (all control points equal), single-point
+/// sub-paths, closing edges of length zero
+fn degenerate_spec(rng: &mut Rng, n_attr: usize) -> PathSpec {
+    let attrs = |r: &mut Rng| -> Vec<f32> { (0..n_attr).map(|_| r.range(-20, 20) as f32).collect() };
+    let pt = |r: &mut Rng| point(r.range(0, 10) as f32, r.range(0, 10) as f32);
+    let nsub = 1 + rng.below(3) as usize;
+    let mut subs = Vec::new();
+    for _ in 0..nsub {
+        let start = pt(rng);
+        let start_attrs = attrs(rng);
+        let mut cur = start;
+        let m = rng.below(5) as usize;
+        let mut segs = Vec::new();
+        for _ in 0..m {
+            let to = match rng.below(4) {
+                0 => cur,
+                1 => start,
+                _ => pt(rng),
+            };
+            segs.push(match rng.below(6) {
+                0 | 1 | 2 => Seg::Line(to, attrs(rng)),
+                3 => Seg::Quad(cur, cur, attrs(rng)),
+                4 => Seg::Cubic(cur, cur, cur, attrs(rng)),
+                _ => {
+                    if to == cur {
+                        Seg::Line(to, attrs(rng))
+                    } else {
+                        Seg::Quad(pt(rng), to, attrs(rng))
+                    }
+                }
+            });
+            cur = match segs.last().unwrap() {
+                Seg::Line(p, _) | Seg::Quad(_, p, _) | Seg::Cubic(_, _, p, _) => *p,
+            };
+        }
+        subs.push(Sub { start, start_attrs, segs, close: rng.chance(1, 2) });
+    }
+    PathSpec { n_attr, subs }
+}
+
+/// The sampler against the dense reference at the given distances: position on the path at that
+/// distance, unit tangent along the path there, attributes interpolated linearly between the end points
+/// of the segment (by the segment parameter of the sampled point).
+fn check_samples_against_dense(st: &mut Stats, dense: &Dense, m: &PathMeasurements, path: &Path, tol: f32, dists: &[f32], label: &str) {
+    let len = m.length();
+    if !(len > 0.0) {
+        return;
+    }
+    let r = catch(AssertUnwindSafe(|| {
+        let mut sampler = m.create_sampler_with_attributes(path, path, SampleType::Distance);
+        dists
+            .iter()
+            .map(|d| {
+                let mut s = sampler.sample(*d);
+                Ev { pos: s.position(), tan: s.tangent(), dist: d.max(0.0).min(len), attrs: s.attributes().to_vec() }
+            })
+            .collect::<Vec<Ev>>()
+    }));
+    st.inc("evaluations");
+    st.add("sampler_samples_against_dense_reference", dists.len() as u64);
+    let evs = match r {
+        Some(e) => e,
+        None => {
+            fail_n(st, None, "measuring / sampling panicked", label.to_string());
+            return;
+        }
+    };
+    let cls = if dense.has_curves { Some(&dense.class) } else { None };
+    let mut reported = [false; 3];
+    for ev in &evs {
+        match dense.check_event(ev, tol) {
+            Verdict::Ok => {}
+            Verdict::OffPath(e) => {
+                if !reported[0] {
+                    reported[0] = true;
+                    fail_n(st, cls, "sample is not the point at the requested distance along the path", format!("{} d={} got {:?}, {:.5} from the dense reference at that distance", label, ev.dist, ev.pos, e));
+                }
+            }
+            Verdict::Tangent => {
+                let dd = 1e-3 * (1.0 + ev.dist as f64);
+                let unit = ev.tan.x.is_finite() && ev.tan.y.is_finite() && (ev.tan.length() - 1.0).abs() <= 1e-3;
+                if !unit && dense.zero_at.iter().any(|z| (z - ev.dist as f64).abs() <= dd) {
+                    // on a piece of length zero there is no direction to report
+                    st.inc("samples_on_zero_length_pieces_without_tangent");
+                } else if !reported[1] {
+                    reported[1] = true;
+                    fail_n(st, cls, "sample tangent is not the unit direction of the path at the sampled position", format!("{} d={} at {:?} tangent {:?}", label, ev.dist, ev.pos, ev.tan));
+                }
+            }
+            Verdict::Attrs(exp) => {
+                if !reported[2] {
+                    reported[2] = true;
+                    fail_n(st, None, "sampled attributes are not the linear interpolation of the segment's endpoint attributes at the sampled position", format!("{} d={} at {:?} attributes {:?} expected {:?}", label, ev.dist, ev.pos, ev.attrs, exp));
+                }
+            }
+        }
+    }
+}
+
+/// (B): every event against the dense reference; at most one failure per kind (position, tangent, attributes)
+fn report_events(st: &mut Stats, dense: &Dense, evs: &[Ev], tol: f32, label: &str) -> [bool; 3] {
+    let curved = dense.has_curves;
+    let mut reported = [false; 3];
+    for (k, ev) in evs.iter().enumerate() {
+        match dense.check_event(ev, tol) {
+            Verdict::Ok => {}
+            Verdict::OffPath(e) => {
+                if !reported[0] {
+                    reported[0] = true;
+                    let (lo, hi) = dense.window(ev.dist as f64, tol as f64);
+                    fail_n(st, if curved { Some(&dense.class) } else { None }, "walker event position is not a point of the path at its distance (dense reference)", format!("{} event {} d={} at {:?}: closest reference point with arc length in [{:.4}, {:.4}] is {:.5} away", label, k, ev.dist, ev.pos, lo, hi, e));
+                }
+            }
+            Verdict::Tangent => {
+                if !reported[1] {
+                    reported[1] = true;
+                    fail_n(st, if curved { Some(&dense.class) } else { None }, "walker event tangent is not the unit direction of the path at the event position", format!("{} event {} d={} at {:?} tangent {:?}", label, k, ev.dist, ev.pos, ev.tan));
+                }
+            }
+            Verdict::Attrs(exp) => {
+                if !reported[2] {
+                    reported[2] = true;
+                    fail_n(st, None, "walker event attributes are not the linear interpolation of the segment's endpoint attributes at the event position", format!("{} event {} d={} at {:?} attributes {:?} expected {:?}", label, k, ev.dist, ev.pos, ev.attrs, exp));
+                }
+            }
+        }
+    }
+    reported
+}
+
+const WALK_LIMIT: usize = 6000;
+
+/// All the checks on one walk with positive (or partly zero) intervals.
+#[allow(clippy::too_many_arguments)]
+fn check_walk(st: &mut Stats, rng: &mut Rng, spec: &PathSpec, path: &Path, dense: &Dense, m: &PathMeasurements, tol: f32, start: f32, pat: &PatKind, route: u8) {
+    let curved = dense.has_curves;
+    let len = m.length();
+    let label = format!("{}tol {} start {} {:?} route {}", spec_text(spec), tol, start, pat, route);
+    st.inc("evaluations");
+    st.inc("walker_pattern_runs");
+    st.inc(match pat {
+        PatKind::Regular(_) => "walker_regular_pattern_runs",
+        PatKind::Repeated(..) => "walker_repeated_pattern_runs",
+    });
+    if spec.n_attr > 0 {
+        st.inc("walker_runs_with_attributes");
+    }
+    if curved {
+        st.inc("walker_runs_on_curved_paths");
+    }
+    let out = match run_walk(spec, path, route, start, tol, pat, None, WALK_LIMIT) {
+        Some(o) => o,
+        None => {
+            fail_n(st, None, "walker panicked", label.to_string());
+            return;
+        }
+    };
+    st.add("walker_pattern_events", out.evs.len() as u64);
+    if out.hit_limit {
+        fail_n(st, None, "walker with positive intervals did not finish within the callback limit", label.to_string());
+        return;
+    }
+    if let Some((a, b)) = out.num_attrs {
+        if a != spec.n_attr || b != spec.n_attr {
+            fail_n(st, None, "PathWalker::num_attributes differs from the number it was created with", format!("{} got {} / {}", label, a, b));
+        }
+    }
+    // ---- the cumulative distances asked for, added in f32 in the walker's order
+    let margin = 1e-3 * (1.0 + len);
+    let mut want: Vec<f32> = Vec::new();
+    let mut c = 0.0f32 + start.max(0.0);
+    while c <= len + margin && want.len() <= WALK_LIMIT {
+        want.push(c);
+        c += pat.interval(want.len() - 1);
+    }
+    let n_must = want.iter().take_while(|c| **c <= len - margin).count();
+    let n_may = want.len();
+    if out.evs.len() < n_must || out.evs.len() > n_may {
+        fail_n(st, if curved { Some(&dense.class) } else { None }, "number of pattern callbacks differs from the number of requested cumulative distances within the measured length", format!("{} measured length {} callbacks {} expected {}..={}", label, len, out.evs.len(), n_must, n_may));
+    }
+    for (k, ev) in out.evs.iter().enumerate() {
+        if k < want.len() && ev.dist.to_bits() != want[k].to_bits() {
+            fail_n(st, None, "walker event distance is not the sum of the start offset and the intervals handed out so far", format!("{} event {} distance {} expected {}", label, k, ev.dist, want[k]));
+            break;
+        }
+    }
+    // ---- (B) against the dense reference: position, tangent, attributes of every event
+    let reported = report_events(st, dense, &out.evs, tol, &label);
+    // ---- the sampler at the same distances against the same reference
+    {
+        let dists: Vec<f32> = out.evs.iter().map(|e| e.dist).take(60).collect();
+        check_samples_against_dense(st, dense, m, path, tol, &dists, &format!("{}tol {}", spec_text(spec), tol));
+    }
+    // ---- (A) the sampler at the same distance (two routes through the library must agree)
+    if len > 0.0 {
+        let r = catch(AssertUnwindSafe(|| {
+            let mut sampler = m.create_sampler_with_attributes(path, path, SampleType::Distance);
+            let mut firsts: [Option<(usize, Point, Vector, Vec<f32>)>; 3] = [None, None, None];
+            for (k, ev) in out.evs.iter().enumerate() {
+                let d = ev.dist;
+                // d -+ dd: at a tie (sub-path boundary, corner) either side is a point at distance d
+                let dd = 5e-5 * (1.0 + d);
+                let eps = 4.0 * dd + 1e-5 * (1.0 + dense.scale as f32);
+                let tol_a = 0.05 + 0.01 * (1.0 + d);
+                let mut best = 0usize;
+                let mut first = None;
+                for q in [d, d - dd, d + dd] {
+                    let mut s = sampler.sample(q);
+                    let (p, t) = (s.position(), s.tangent());
+                    let a = s.attributes().to_vec();
+                    let pos_ok = (p - ev.pos).length() <= eps;
+                    let fin = |v: Vector| v.x.is_finite() && v.y.is_finite();
+                    let tan_ok = (fin(t) && fin(ev.tan) && t.dot(ev.tan) >= 0.99) || (!fin(t) && !fin(ev.tan));
+                    let att_ok = a.len() == ev.attrs.len() && a.iter().zip(ev.attrs.iter()).all(|(x, y)| (x - y).abs() <= tol_a);
+                    let stage = if !pos_ok {
+                        0
+                    } else if !tan_ok {
+                        1
+                    } else if !att_ok {
+                        2
+                    } else {
+                        3
+                    };
+                    if first.is_none() {
+                        first = Some((p, t, a));
+                    }
+                    best = best.max(stage);
+                }
+                if best < 3 && firsts[best].is_none() {
+                    let (p, t, a) = first.unwrap();
+                    firsts[best] = Some((k, p, t, a));
+                }
+            }
+            firsts
+        }));
+        match r {
+            None => fail_n(st, None, "sampling at the walker's distances panicked", label.to_string()),
+            Some(firsts) => {
+                let whats = [
+                    "walker event and sampler at the same distance give different positions",
+                    "walker event and sampler at the same distance give different tangents",
+                    "walker event and sampler at the same distance give different attributes",
+                ];
+                for (i, f) in firsts.iter().enumerate() {
+                    if let Some((k, p, t, a)) = f {
+                        let ev = &out.evs[*k];
+                        if i == 2 && reported[2] {
+                            // the same walk already reported against the dense reference
+                            st.inc("walker_attribute_mismatch_also_against_sampler");
+                            continue;
+                        }
+                        // a tangent that exists on one side only: the derivative vanishes there (part of K7)
+                        let nan_tangent = i == 1 && !(t.x.is_finite() && t.y.is_finite() && ev.tan.x.is_finite() && ev.tan.y.is_finite());
+                        fail_n(st, if nan_tangent && curved { Some(&dense.class) } else { None }, whats[i], format!("{} event {} d={} walker {:?} {:?} {:?} sampler {:?} {:?} {:?}", label, k, ev.dist, ev.pos, ev.tan, ev.attrs, p, t, a));
+                    }
+                }
+            }
+        }
+    }
+    // ---- returning false stops the walk at once
+    if !out.evs.is_empty() {
+        let k = rng.below(out.evs.len() as u64) as usize;
+        st.inc("evaluations");
+        st.inc("walker_stop_runs");
+        match run_walk(spec, path, route, start, tol, pat, Some(k), WALK_LIMIT) {
+            None => fail_n(st, None, "walker panicked when the callback returned false", label.to_string()),
+            Some(o2) => {
+                if o2.after_stop > 0 {
+                    fail_n(st, None, "pattern callback invoked again after it returned false", format!("{} returned false at event {} of {}, then {} more callbacks", label, k, out.evs.len(), o2.after_stop));
+                } else if o2.evs.len() != k + 1 || !o2.evs.iter().zip(out.evs.iter()).all(|(a, b)| a.same(b)) {
+                    fail_n(st, None, "walk stopped by the callback differs from the prefix of the full walk", format!("{} stop at {} got {} events", label, k, o2.evs.len()));
+                }
+            }
+        }
+    }
+    // ---- the attributes do not influence where the walker goes
+    if route != 0 {
+        if let Some(o0) = run_walk(spec, path, 0, start, tol, pat, None, WALK_LIMIT) {
+            let same = o0.evs.len() == out.evs.len()
+                && o0.evs.iter().zip(out.evs.iter()).all(|(a, b)| {
+                    let mut b2 = b.clone();
+                    b2.attrs.clear();
+                    a.same(&b2)
+                });
+            if !same {
+                fail_n(st, None, "walk_along_path and PathWalker::with_attributes visit different points on the same path", label.to_string());
+            }
+        } else {
+            fail_n(st, None, "walker panicked", label.to_string());
+        }
+    }
+}
+
+/// A pattern that declines to start sub-path number `stop_sub` (Pattern::begin returns None: "path
+/// walking stops"), and records every call it receives afterwards.
+struct BeginStop {
+    interval: f32,
+    stop_sub: usize,
+    begins: usize,
+    stopped: bool,
+    calls_after: usize,
+    evs: Vec<Ev>,
+}
+
+impl Pattern for BeginStop {
+    fn next(&mut self, e: WalkerEvent) -> Option<f32> {
+        if self.stopped {
+            self.calls_after += 1;
+            return None;
+        }
+        if self.evs.len() >= WALK_LIMIT {
+            self.stopped = true;
+            return None;
+        }
+        self.evs.push(Ev { pos: e.position, tan: e.tangent, dist: e.distance, attrs: e.attributes.to_vec() });
+        Some(self.interval)
+    }
+    fn begin(&mut self, distance: f32) -> Option<f32> {
+        if self.stopped {
+            self.calls_after += 1;
+            return None;
+        }
+        self.begins += 1;
+        if self.begins - 1 == self.stop_sub {
+            self.stopped = true;
+            return None;
+        }
+        Some(distance)
+    }
+}
+
+/// Declining a sub-path in Pattern::begin stops the walk: nothing is called afterwards, and what was
+/// visited before is what the full walk visits first.
+fn check_begin_stop(st: &mut Stats, rng: &mut Rng, spec: &PathSpec, path: &Path, tol: f32) {
+    let interval = *rng.pick(&[0.5f32, 1.0, 2.5]);
+    let stop_sub = rng.below(spec.subs.len() as u64) as usize;
+    let label = format!("{}tol {} interval {} begin declines sub-path {}", spec_text(spec), tol, interval, stop_sub);
+    st.inc("evaluations");
+    st.inc("walker_begin_declined_runs");
+    let run = |stop_sub: usize| {
+        catch(AssertUnwindSafe(|| {
+            let mut p = BeginStop { interval, stop_sub, begins: 0, stopped: false, calls_after: 0, evs: vec![] };
+            walk_along_path(path.iter(), 0.0, tol, &mut p);
+            p
+        }))
+    };
+    match (run(usize::MAX), run(stop_sub)) {
+        (Some(full), Some(part)) => {
+            if part.calls_after > 0 {
+                fail_n(st, None, "pattern called again after Pattern::begin returned None", format!("{} {} more calls", label, part.calls_after));
+            } else if part.evs.len() > full.evs.len() || !part.evs.iter().zip(full.evs.iter()).all(|(a, b)| a.same(b)) || (stop_sub == 0 && !part.evs.is_empty()) {
+                fail_n(st, None, "walk stopped by Pattern::begin differs from the prefix of the full walk", format!("{} got {} events of {}", label, part.evs.len(), full.evs.len()));
+            }
+        }
+        _ => fail_n(st, None, "walker panicked", label),
+    }
+}
+
+/// Intervals that never advance (0) or go backwards (negative).  The property does not say what such a
+/// request means beyond "the points at the cumulative distances asked for"; what is checked as a failure
+/// is only: no panic, and event.distance is the requested cumulative distance.  That the walk never ends
+/// on its own, and that events of a negative interval leave the path, are counted as observations.
+fn check_nonpositive(st: &mut Stats, rng: &mut Rng, spec: &PathSpec, path: &Path, dense: &Dense, tol: f32, route: u8) {
+    let interval = *rng.pick(&[0.0f32, 0.0, -0.5, -1.0, -3.0]);
+    let start = *rng.pick(&[0.0f32, 1.0, 2.5, 6.0]);
+    let limit = 40usize;
+    let pat = PatKind::Regular(interval);
+    let label = format!("{}tol {} start {} {:?} route {}", spec_text(spec), tol, start, pat, route);
+    st.inc("evaluations");
+    st.inc(if interval == 0.0 { "walker_zero_interval_runs" } else { "walker_negative_interval_runs" });
+    let out = match run_walk(spec, path, route, start, tol, &pat, None, limit) {
+        Some(o) => o,
+        None => {
+            fail_n(st, None, "walker panicked on a zero or negative interval", label.to_string());
+            return;
+        }
+    };
+    if out.evs.is_empty() {
+        return; // start beyond the end of the path
+    }
+    if out.hit_limit {
+        st.inc(if interval == 0.0 { "observed_zero_interval_walk_ended_only_by_callback" } else { "observed_negative_interval_walk_ended_only_by_callback" });
+    }
+    let mut c = 0.0f32 + start;
+    for (k, ev) in out.evs.iter().enumerate() {
+        if ev.dist.to_bits() != c.to_bits() {
+            fail_n(st, None, "walker event distance is not the sum of the start offset and the intervals handed out so far", format!("{} event {} distance {} expected {}", label, k, ev.dist, c));
+            break;
+        }
+        c += interval;
+    }
+    if interval == 0.0 {
+        // asked for the same cumulative distance again and again: the same point every time
+        let geo = |e: &Ev| Ev { attrs: vec![], ..e.clone() };
+        if !out.evs.iter().all(|e| geo(e).same(&geo(&out.evs[0]))) {
+            fail_n(st, None, "walker with interval 0 reports different positions or tangents for the same cumulative distance", label.to_string());
+        }
+        if let Some(k) = out.evs.iter().position(|e| !e.same(&Ev { attrs: out.evs[0].attrs.clone(), ..e.clone() })) {
+            fail_n(st, None, "walker with interval 0 reports different attributes for the same cumulative distance", format!("{} event 0 {:?} event {} {:?}", label, out.evs[0].attrs, k, out.evs[k].attrs));
+        }
+        report_events(st, dense, &out.evs[..1], tol, &label);
+    } else {
+        let off = out.evs.iter().filter(|e| e.dist >= 0.0 && !matches!(dense.check_event(e, tol), Verdict::Ok)).count();
+        if off > 0 {
+            st.inc("observed_negative_interval_walks_leaving_the_path");
+        }
+    }
+}
+
+fn walker_checks(args: &Args, st: &mut Stats) {
+    let mut rng = Rng::new(args.seed ^ 0x1919);
+    let n = if args.thorough() { 3000 } else { 300 };
+    let intervals = [0.25f32, 0.5, 0.75, 1.0, 1.5, 2.5, 4.0, 7.0];
+    for it in 0..n {
+        let n_attr = match it % 4 {
+            0 | 1 => 0,
+            2 => 1,
+            _ => 2,
+        };
+        let kind = rng.below(10);
+        let spec = if kind < 5 {
+            random_curved(&mut rng, n_attr, 3, 3, 12)
+        } else if kind < 7 {
+            pyth_spec(&mut rng, n_attr)
+        } else {
+            degenerate_spec(&mut rng, n_attr)
+        };
+        let path = spec.build();
+        let curved = !spec.polygonal();
+        let tol = *rng.pick(&[0.01f32, 0.03, 0.1]);
+        if curved {
+            // same exclusion as above: curves on which lyon's flattening itself is off (K2 of C09)
+            let analytic = approximate_length(path.iter(), 0.0005) as f64;
+            let flat = poly_len(&flat_polyline(&path, 0.0005));
+            if (analytic - flat).abs() > 0.005 * (1.0 + flat) {
+                st.inc("skipped_flattening_defect_curves");
+                continue;
+            }
+        }
+        let m = match catch(AssertUnwindSafe(|| PathMeasurements::from_path(&path, tol))) {
+            Some(m) => m,
+            None => {
+                fail_n(st, None, "measuring / sampling panicked", spec_text(&spec));
+                continue;
+            }
+        };
+        let len = m.length();
+        let dense = Dense::new(&spec, 1024);
+        st.note_case(&format!("walk {}", spec_text(&spec)), dense.edges.len() > 1);
+        st.inc(if kind < 5 {
+            "walker_paths_curved_generator"
+        } else if kind < 7 {
+            "walker_paths_integer_length_polylines"
+        } else {
+            "walker_paths_degenerate_generator"
+        });
+        // the measured length is the length of the flattening with the same tolerance - here the segments of
+        // the builder program flattened one by one with lyon_geom's for_each_flattened (the flattening
+        // ITERATOR of lyon_path cuts cubics differently and gives another length, up to 0.04 apart at
+        // tolerance 0.1).  How far that is from the length of the curves themselves is C09's subject (the
+        // vertices of a flattened cubic lie on its quadratic approximations: even slightly longer happens).
+        {
+            let flat = catch(AssertUnwindSafe(|| geom_flattened_length(&spec, tol)));
+            match flat {
+                None => fail_n(st, None, "flattening a segment panicked", spec_text(&spec)),
+                Some(flat) => {
+                    if (len as f64 - flat).abs() > 1e-4 * (1.0 + flat) {
+                        fail_n(st, None, "measured length differs from the length of the path flattened with the same tolerance", format!("{}tol {} measured {} flattened {} dense reference {}", spec_text(&spec), tol, len, flat, dense.total));
+                    }
+                }
+            }
+        }
+        let pat = if rng.chance(1, 2) {
+            PatKind::Regular(*rng.pick(&intervals))
+        } else {
+            let k = 1 + rng.below(4) as usize;
+            let mut v: Vec<f32> = (0..k).map(|_| *rng.pick(&intervals)).collect();
+            if k > 1 && rng.chance(1, 8) {
+                v[0] = 0.0; // the same point twice, then on
+            }
+            PatKind::Repeated(v, if rng.chance(1, 4) { rng.below(7) as usize } else { 0 })
+        };
+        let start = match rng.below(10) {
+            0 | 1 | 2 | 3 => 0.0,
+            4 => len + 1.0,
+            _ => rng.range(1, 8) as f32 * 0.5,
+        };
+        let route = if n_attr == 0 { *rng.pick(&[0u8, 0, 0, 1, 2]) } else { 1 + (rng.below(2) as u8) };
+        check_walk(st, &mut rng, &spec, &path, &dense, &m, tol, start, &pat, route);
+        // an interval larger than the whole path: only the event at the start offset
+        if rng.chance(1, 4) {
+            let start = if rng.chance(1, 2) { 0.0 } else { (rng.unit_f64() as f32) * len };
+            check_walk(st, &mut rng, &spec, &path, &dense, &m, tol, start, &PatKind::Regular(len + 5.0), route);
+        }
+        if rng.chance(1, 5) {
+            check_nonpositive(st, &mut rng, &spec, &path, &dense, tol, route);
+        }
+        if spec.subs.len() > 1 && rng.chance(1, 3) {
+            check_begin_stop(st, &mut rng, &spec, &path, tol);
+        }
+    }
+}
+
+// =====================================================================================
+// Sampler / split_range corner cases: normalized against absolute distances, distances before the
+// start and after the end, zero-length and empty paths, empty ranges, ranges in absolute distances.
+// =====================================================================================
+fn measure_edge_checks(args: &Args, st: &mut Stats) {
+    let mut rng = Rng::new(args.seed ^ 0x1920);
+    let n = if args.thorough() { 800 } else { 100 };
+    for it in 0..n {
+        let n_attr = (it % 3) as usize;
+        let kind = rng.below(10);
+        let spec = if kind < 4 {
+            random_curved(&mut rng, n_attr, 3, 3, 12)
+        } else if kind < 7 {
+            pyth_spec(&mut rng, n_attr)
+        } else if kind < 9 {
+            degenerate_spec(&mut rng, n_attr)
+        } else {
+            // no length at all: nothing, or single points / repeated points
+            let mut subs = Vec::new();
+            for _ in 0..rng.below(3) {
+                let p = point(rng.range(0, 9) as f32, rng.range(0, 9) as f32);
+                let at = |r: &mut Rng| -> Vec<f32> { (0..n_attr).map(|_| r.range(-9, 9) as f32).collect() };
+                let segs = (0..rng.below(3)).map(|_| Seg::Line(p, at(&mut rng))).collect();
+                subs.push(Sub { start: p, start_attrs: at(&mut rng), segs, close: rng.chance(1, 2) });
+            }
+            PathSpec { n_attr, subs }
+        };
+        let path = spec.build();
+        let curved = !spec.polygonal();
+        let tol = 0.01f32;
+        let label = spec_text(&spec);
+        if curved {
+            let analytic = approximate_length(path.iter(), 0.0005) as f64;
+            let flat = poly_len(&flat_polyline(&path, 0.0005));
+            if (analytic - flat).abs() > 0.005 * (1.0 + flat) {
+                st.inc("skipped_flattening_defect_curves");
+                continue;
+            }
+        }
+        st.inc("evaluations");
+        st.inc("sampler_corner_case_paths");
+        st.note_case(&format!("corner {}", label), !spec.subs.is_empty());
+        let dense = Dense::new(&spec, 1024);
+        let m = match catch(AssertUnwindSafe(|| PathMeasurements::from_path(&path, tol))) {
+            Some(m) => m,
+            None => {
+                fail_n(st, None, "measuring / sampling panicked", label.to_string());
+                continue;
+            }
+        };
+        let len = m.length();
+        type S = (Point, Vector, Vec<f32>);
+        let sample = |ty: SampleType, d: f32| -> Option<S> {
+            catch(AssertUnwindSafe(|| {
+                let mut s = m.create_sampler_with_attributes(&path, &path, ty);
+                let mut r = s.sample(d);
+                (r.position(), r.tangent(), r.attributes().to_vec())
+            }))
+        };
+        let close = |a: &S, b: &S, eps: f32| -> bool {
+            let f = |x: f32, y: f32| (x - y).abs() <= eps || (x.is_nan() && y.is_nan());
+            f(a.0.x, b.0.x) && f(a.0.y, b.0.y) && f(a.1.x, b.1.x) && f(a.1.y, b.1.y) && a.2.len() == b.2.len() && a.2.iter().zip(b.2.iter()).all(|(x, y)| f(*x, *y))
+        };
+        if dense.edges.is_empty() {
+            // ---- a path without length: every distance is the (first) point of the path; an empty path has no point
+            st.inc("sampler_zero_length_paths");
+            if len != 0.0 {
+                fail_n(st, None, "measured length of a path without any non-degenerate segment is not 0", format!("{} length {}", label, len));
+            }
+            for ty in [SampleType::Distance, SampleType::Normalized] {
+                for d in [0.0f32, 0.5, 1.0, -1.0, 3.0] {
+                    match sample(ty, d) {
+                        None => {
+                            fail_n(st, None, "sampling a path of length zero panicked", format!("{} {:?} d={}", label, ty, d));
+                        }
+                        Some(s) => {
+                            if !spec.subs.is_empty() && !spec.subs.iter().any(|sub| sub.start == s.0) {
+                                fail_n(st, None, "sample on a path of length zero is not a point of the path", format!("{} {:?} d={} got {:?}", label, ty, d, s.0));
+                            }
+                        }
+                    }
+                }
+            }
+            // splitting has nothing to extract (the documentation allows a panic on an empty path)
+            let r = catch(AssertUnwindSafe(|| {
+                let mut s = m.create_sampler(&path, SampleType::Normalized);
+                let mut out = Path::builder();
+                s.split_range(0.0..1.0, &mut out);
+                approximate_length(out.build().iter(), 0.001)
+            }));
+            match r {
+                None => st.inc("observed_split_range_panics_on_zero_length_path"),
+                Some(l) => {
+                    if l != 0.0 {
+                        fail_n(st, None, "split_range of a path of length zero has a length", format!("{} {}", label, l));
+                    }
+                }
+            }
+            continue;
+        }
+        if !(len > 0.0) {
+            fail_n(st, None, "measured length of a path with a non-degenerate segment is not positive", format!("{} length {}", label, len));
+            continue;
+        }
+        // ---- normalized distance u is the absolute distance u * length
+        let eps = 1e-4 * (1.0 + dense.scale as f32);
+        for u in [0.0f32, 1.0, rng.unit_f64() as f32, rng.unit_f64() as f32, -0.25, 1.5] {
+            st.inc("sampler_normalized_queries");
+            match (sample(SampleType::Normalized, u), sample(SampleType::Distance, u * len)) {
+                (Some(a), Some(b)) => {
+                    if !close(&a, &b, eps) {
+                        fail_n(st, None, "normalized sample at u differs from the sample at distance u x length", format!("{} u={} {:?} vs {:?}", label, u, a, b));
+                        break;
+                    }
+                }
+                _ => {
+                    fail_n(st, None, "measuring / sampling panicked", format!("{} u={}", label, u));
+                    break;
+                }
+            }
+        }
+        // ---- distances before the start / after the end are those of the start / the end, which are points of the path at 0 / length
+        for (d_out, d_in) in [(-1.0f32, 0.0f32), (-0.001, 0.0), (len + 1.0, len), (len * 1.001 + 0.001, len)] {
+            st.inc("sampler_out_of_range_queries");
+            match (sample(SampleType::Distance, d_out), sample(SampleType::Distance, d_in)) {
+                (Some(a), Some(b)) => {
+                    if !close(&a, &b, eps) {
+                        fail_n(st, None, "sample outside of 0..length differs from the sample at the nearest end", format!("{} d={} {:?} vs d={} {:?}", label, d_out, a, d_in, b));
+                        break;
+                    }
+                    let ev = Ev { pos: a.0, tan: a.1, dist: if d_in == 0.0 { 0.0 } else { dense.total as f32 }, attrs: vec![] };
+                    if let Verdict::OffPath(e) = dense.check_event(&ev, tol) {
+                        fail_n(st, if curved { Some(&dense.class) } else { None }, "sample is not the point at the requested distance along the path", format!("{} d={} got {:?}, {} away from the end of the dense reference", label, d_out, a.0, e));
+                        break;
+                    }
+                }
+                _ => {
+                    fail_n(st, None, "measuring / sampling panicked", format!("{} d={}", label, d_out));
+                    break;
+                }
+            }
+        }
+        // ---- sub-ranges in absolute distances (also reaching outside of the path), empty and reversed ranges
+        let r = catch(AssertUnwindSafe(|| {
+            let mut sampler = m.create_sampler(&path, SampleType::Distance);
+            let mut cuts = [0.0f32; 3];
+            for c in cuts.iter_mut() {
+                *c = (rng.unit_f64() as f32) * 1.3 * len - 0.15 * len;
+            }
+            cuts.sort_by(|a, b| a.partial_cmp(b).unwrap());
+            let mut lens = Vec::new();
+            for (a, b) in [(cuts[0], cuts[1]), (cuts[1], cuts[2]), (cuts[0], cuts[2]), (cuts[1], cuts[1]), (cuts[2], cuts[0])] {
+                let mut out = Path::builder();
+                sampler.split_range(a..b, &mut out);
+                lens.push(approximate_length(out.build().iter(), tol * 0.1));
+            }
+            (cuts, lens)
+        }));
+        st.inc("split_range_distance_mode_runs");
+        match r {
+            None => fail_n(st, None, "split_range panicked", label.to_string()),
+            Some((cuts, lens)) => {
+                let e = if curved { 0.03 * (1.0 + len) } else { 2e-3 * (1.0 + len) };
+                let cl = |x: f32| x.max(0.0).min(len);
+                if (lens[0] + lens[1] - lens[2]).abs() > e || (lens[2] - (cl(cuts[2]) - cl(cuts[0]))).abs() > e {
+                    fail_n(st, if curved { Some(&dense.class) } else { None }, "lengths of split sub-ranges do not add up", format!("{} distance cuts {:?} lens {:?} total {}", label, cuts, lens, len));
+                }
+                if lens[3] != 0.0 || lens[4] != 0.0 {
+                    fail_n(st, None, "split_range of an empty or reversed range is not empty", format!("{} cuts {:?} lens {:?}", label, cuts, lens));
+                }
+            }
+        }
+    }
 }
